@@ -57,8 +57,15 @@ def busMapSingleLegacy (s : Nat) : List (Nat × Nat) := [(s, s)]
 
 /-! ### Status series -/
 
+/-- Position of one breaker at step `t`: a breaker that is not operated keeps a single value, which
+stands for the whole series (`get_bus_tie_status`, after D51). -/
+def positionAt (row : List Bool) (t : Nat) : Bool :=
+  match row with
+  | [c] => c
+  | _ => row.getD t false
+
 /-- Column `t` of the status matrix (one row per breaker). -/
-def column (status : List (List Bool)) (t : Nat) : List Bool := status.map fun row => row.getD t false
+def column (status : List (List Bool)) (t : Nat) : List Bool := status.map fun row => positionAt row t
 
 /-- `bus_configuration_change_index`: 0 and every `t` at which some breaker differs from `t-1`. -/
 def changeIdx (status : List (List Bool)) (n : Nat) : List Nat :=
